@@ -21,6 +21,7 @@ import (
 	"testing"
 	"time"
 
+	rhp2 "go.sia.tech/core/rhp/v2"
 	rhp3 "go.sia.tech/core/rhp/v3"
 	proto4 "go.sia.tech/core/rhp/v4"
 	"go.sia.tech/core/types"
@@ -498,6 +499,7 @@ func verifPopulate(t testing.TB, s *Store, rng *rand.Rand, nRoots int) *verifEnv
 			}
 			rev.Revision.RevisionNumber++
 			rev.Revision.Filesize = uint64(len(roots)) * proto4.SectorSize
+			rev.Revision.FileMerkleRoot = rhp2.MetaRoot(roots)
 			verifMust(t, "ReviseContract", s.ReviseContract(rev, nil, contracts.Usage{StorageRevenue: types.Siacoins(1), RiskedCollateral: types.Siacoins(1)}, changes))
 		}
 		env.v1rev[id] = rev
@@ -522,6 +524,8 @@ func verifPopulate(t testing.TB, s *Store, rng *rand.Rand, nRoots int) *verifEnv
 			}
 			c.V2FileContract.RevisionNumber++
 			c.V2FileContract.Filesize = uint64(len(roots)) * proto4.SectorSize
+			c.V2FileContract.Capacity = c.V2FileContract.Filesize
+			c.V2FileContract.FileMerkleRoot = rhp2.MetaRoot(roots)
 			verifMust(t, "ReviseV2Contract", s.ReviseV2Contract(c.ID, c.V2FileContract, nil, roots, proto4.Usage{Storage: types.Siacoins(1), RiskedCollateral: types.Siacoins(1)}))
 		}
 		env.v2fc[c.ID] = c.V2FileContract
